@@ -808,6 +808,12 @@ class Interp:
                 # a repository function without a contract: execute its real body at the call site
                 # (keeps the check robust against harmless extract-helper refactorings); recorded
                 self.engine.auto_inlined.add(target)
+            deep = self.path.ghost.get("__free_deep__")
+            if deep and fn.qualname.count("<") == 0 and not getattr(fn, "_deep_done", False):
+                # the contract's stubs also stand in for the same names inside repository callees executed inline
+                # (e.g. `h5py` seen by a helper of the same module)
+                fn = Closure(fn.node, Env(fn.env, dict(self.path.ghost.get("__free__") or {})), fn.module, fn.qualname, fn.cls)
+                fn._deep_done = True
             return self.call_closure(fn, args, kwargs)
         if isinstance(fn, LibFunc):
             return fn.fn(self, *args, **kwargs)
